@@ -98,6 +98,8 @@ var (
 	VerifParseAllAttributes      = parseAllAttributes
 	VerifBuildColumnsWithDropped = buildColumnsWithDropped
 	VerifRowKeys                 = rowKeys
+	VerifCommentSafe             = commentSafe
+	VerifIsSafeIdent             = isSafeIdent
 )
 
 // VerifNewSecretScannerWith builds a SecretScanner around the given detectors
